@@ -19,7 +19,7 @@ use std::time::Instant;
 pub fn def() -> PropDef {
     PropDef {
         id: "C15",
-        rule: "all expected values come from the independent field arithmetic (refmodel). tables (exhaustive): exp[i] = g^i, exp[65535] = 1, log[x] for x >= 1, all 65535 skew entries = log of the normalised subspace polynomial s^_t(w) with the 16 sentinels, all 4M nibble products of Mul16 and of Mul128, LogWalsh[y] = sum_x (-1)^{|x&y|} log x mod 65535 for all y (own exact Walsh transform; the naive signed sum on 512 sampled y in quick and on all y in thorough). mul: per engine every log_m x (quick 2048 symbols incl. 0/1/0xFFFF/single-bit; thorough all 65536 symbols = all 2^32 pairs) against symbol*g^log_m. fft: random LCH-basis coefficients, outputs at pos..pos+truncated_size must be the polynomial's values at the points skew_delta+i (all outputs for sizes <= 1024; for sizes up to 65536 a sample of outputs containing the borders of the truncated range and of every eighth; chunk-aligned skew offsets up to the table end, sampled slots); ifft: inputs zero beyond truncated_size, the output coefficients evaluated by the reference must reproduce all size inputs. eval_poly: 0/1 vectors, every output (sparse marks) or 96 sampled outputs (dense marks) = sum over marked j != x of log(x^j) mod 65535 with 0 = 65535, bit-identical for two covering truncated sizes. non-trivial: log_m not in {0,65535} and symbol != 0; truncated < size; >= 2 marks",
+        rule: "all expected values come from the independent field arithmetic (refmodel). tables (exhaustive): exp[i] = g^i, exp[65535] = 1, log[x] for x >= 1, all 65535 skew entries = log of the normalised subspace polynomial s^_t(w) with the 16 sentinels, all 4M nibble products of Mul16 and of Mul128, LogWalsh[y] = sum_x (-1)^{|x&y|} log x mod 65535 for all y (own exact Walsh transform; the naive signed sum on 512 sampled y in quick and on all y in thorough). mul: per engine every log_m x (quick 2048 symbols incl. 0/1/0xFFFF/single-bit; thorough all 65536 symbols = all 2^32 pairs) against symbol*g^log_m. fft: random LCH-basis coefficients, outputs at pos..pos+truncated_size must be the polynomial's values at the points skew_delta+i (all outputs for sizes <= 1024; for sizes up to 65536 a sample of outputs containing the borders of the truncated range and of every eighth; chunk-aligned skew offsets up to the table end, sampled slots; a third of the transforms and half of the mul rows on buffers at non-aligned addresses); ifft: inputs zero beyond truncated_size, the output coefficients evaluated by the reference must reproduce all size inputs. eval_poly: 0/1 vectors, every output (sparse marks) or 96 sampled outputs (dense marks) = sum over marked j != x of log(x^j) mod 65535 with 0 = 65535, bit-identical for two covering truncated sizes. non-trivial: log_m not in {0,65535} and symbol != 0; truncated < size; >= 2 marks",
         assumptions: &["log(0) has no definition and is not asserted", "modular quantities are compared modulo 65535 with 0 and 65535 identified"],
         parts,
     }
@@ -259,7 +259,7 @@ fn mul_check(eng: Eng, log_m: u16, syms: &[u16]) -> Result<(), String> {
     for (i, &s) in syms.iter().enumerate() {
         buf.set_sym(0, i, s);
     }
-    prims::mul(eng, &mut buf.data[..], log_m);
+    prims::mul_at(eng, &mut buf.data[..], if log_m % 2 == 1 { 1 + log_m as usize % 63 } else { 0 }, log_m);
     for (i, &s) in syms.iter().enumerate() {
         let got = buf.sym(0, i);
         let want = f.mul_exp(s, log_m as u32);
@@ -445,7 +445,8 @@ fn check_xf(c: &XfCase, st: &mut Stats) -> CheckResult {
         }
     }
     let input = buf.clone();
-    prims::xform(c.eng, c.which, &mut buf, c.pos, size, c.trunc, skew_delta);
+    let misalign = if c.seed % 3 == 0 && c.size_log <= 12 { 1 + (c.seed >> 8) as usize % 63 } else { 0 };
+    prims::xform_at(c.eng, c.which, &mut buf, misalign, c.pos, size, c.trunc, skew_delta);
     // sampled slots: first, last, one random
     let nslots = 32 * c.blocks;
     let mut slots = vec![0usize, nslots - 1, rng.below(nslots)];
@@ -505,6 +506,7 @@ fn check_xf(c: &XfCase, st: &mut Stats) -> CheckResult {
     }
     st.classf("op", format!("{:?}", c.which));
     st.classf("engine", c.eng.name());
+    st.classf("misaligned", misalign != 0);
     st.classf("size_log", c.size_log);
     st.classf("skew", if c.skew_chunk == 0 { "0" } else if (c.skew_chunk + 1) * size == 65536 { "table-end" } else { "inner" });
     if c.trunc < size && c.trunc > 0 {
